@@ -205,9 +205,19 @@ def check_section_data(ctx, w):
                        got=ops, expected=want, sample='Section.data zlib: seek sh_offset+sizeof(Chdr); read sh_size-sizeof(Chdr)')
                 ctx.ob('R-DOM', f.construct, 'size check before compressed return', szc is False,
                        msg='a compressed return path does not pass the decompressed-size check', got=conds)
+                # inflation bounded by the declared size hides a stream that inflates to MORE than declared from the length
+                # comparison: then the path must also have established that nothing is left beyond the bound
+                bounded = any(isinstance(c, ast.Call) and isinstance(c.func, ast.Attribute) and c.func.attr == 'decompress' and len(c.args) + len(c.keywords) >= 2 and
+                              any(c is x for st in p.stmts() for x in ast.walk(st)) for c in ast.walk(f.node))
+                rest = [(expr.cond_str(t, env), pol) for t, pol in p.conds() if 'unconsumed_tail' in U(t) or '.eof' in U(t) or 'unused_data' in U(t)]
+                ctx.ob('R-DOM', f.construct, 'bounded inflation: remainder beyond the declared size rejected', (not bounded) or
+                       any(('unconsumed_tail' in c and pol is False) or ('eof' in c and 'unconsumed' not in c and pol is True) for c, pol in rest), got=rest,
+                       msg='decompress(payload, declared size) stops at the declared size: a stream that inflates to more passes the length check '
+                           'truncated, unless the path tests that nothing remains (unconsumed_tail / eof)')
                 ctx.ob('E-i', f.construct, 'returns inflated result', rv == expr.spec_nf(INFLATED), got=rv)
             elif p.end[0] == 'raise':
-                ok = szc is True and p.end[1] is not None and 'ELFCompressionError' in U(p.end[1])
+                remainder = any('unconsumed_tail' in U(t) and pol for t, pol in p.conds())      # the other rejection of this branch
+                ok = (szc is True or remainder) and p.end[1] is not None and 'ELFCompressionError' in U(p.end[1])
                 ctx.ob('R-DOM', f.construct, 'size mismatch raises ELFCompressionError', ok, got=conds)
         elif comp and zl is False:
             seen['unknown-compression'] += 1
@@ -223,6 +233,7 @@ def check_section_data(ctx, w):
         ctx.ob('E-i', f.construct, 'path class %s exists' % k, v >= 1, msg='expected data path missing')
     # the inflate call is bounded by data_size
     dz = [c for c in ast.walk(f.node) if isinstance(c, ast.Call) and isinstance(c.func, ast.Attribute) and c.func.attr == 'decompress']
+    dz = [c for c in dz if 'unconsumed_tail' not in U(c)]      # (the probe for a remainder is not the inflation)
     ok = bool(dz) and all(len(c.args) == 2 and expr.nfs(c.args[0], env) == expr.spec_nf('read(stream, sh_size - sizeof(Elf_Chdr))')
                           and canon(expr.nfs(c.args[1], env)) == 'data_size' for c in dz)
     ctx.ob('E-i', f.construct, 'decompress(payload, data_size)', ok,
